@@ -21,6 +21,11 @@ CHECKS["C05"] = dict(level="exploration", design="5/C05",
    text="3.6 million inputs in the quick tier: all token strings of length <= 4 over a 43-token vocabulary, all texts of <= 3 characters over 36 character classes, every truncation and single-token edit of the corpus, and a directed boundary family including size ladders across the 8/16-bit limits and nesting/recursion depth ladders. Each must end in a value or one of the five error kinds: no panic, abort, probe breach, memory-limit hit or hang (instruction-budget exhaustion is accepted only for inputs spelling out a loop or function). Workers run on an ordinary 8 MiB stack so native-stack exhaustion is seen.",
    note="trusted: worker isolation (rlimit, watchdog) and the instruction-budget hook; long random noise is not reachable by enumeration")
 
+CHECKS["C07"] = dict(level="exploration", design="5/C07",
+   technique="bounded-exhaustive enumeration of syntax trees (all expression trees to depth D over all operator pairs, all statement trees of the slices), printed with minimal parentheses from the documented table and under every single (quick) / double (thorough) layout deviation, parsed by the real parser and compared for tree equality",
+   text="4.8 million renderings in the quick tier: all 40 826 expression trees of depth <= 3 over 14 operators and two leaves, postfix/prefix forms in every operand position, all `a op= e` for e of depth <= 2, all else-if chains to length 3, every statement tree of five slices, and for a base set every rendering with one gap changed to each of 13 alternative separators (11 white-space code points, a comment, nothing), each optional `;`/`,` dropped, each sub-expression parenthesised. The parser must return exactly the generated tree.",
+   note="trusted: the printer's precedence table and the maximal-munch rule `may_touch` (written from the README/property, not from the parser); U13 (extent of prefix operators) is avoided by always parenthesising non-atomic prefix operands")
+
 NOT_YET = {}
 props = [json.loads(l) for l in open("/verif/properties.jsonl")]
 checks = []
